@@ -33,7 +33,7 @@ def unsize_source(P, fn, local, depth=12):
         if kind == "c":
             return ("call", d)
         if d["k"] == "cast":
-            if "Unsize" in d["ck"] and not P.tstr(fn.crate, d["from"]).startswith("&dyn "):
+            if "Unsize" in d["ck"] and not P.tstr(fn.crate, d["from"]).startswith(("&dyn ", "&mut dyn ")):
                 return ("unsize", P.tstr(fn.crate, d["from"]))
             ol = op_local(d["o"])
             if not ol:
